@@ -3,8 +3,8 @@ import market_checks
 import py_checks
 
 PROP = "C01"
-LEAN_MODULES = ["PamsProps.C01", "PamsProps.SimE2E", "PamsProps.SrcRound"]
-NAMESPACES = ["Pams.C01", "Pams.C01", "Pams.C01"]      # second: the end-to-end theorems of PamsProps/SimE2E.lean in the same namespace
+LEAN_MODULES = ["PamsProps.C01", "PamsProps.SimE2E", "PamsProps.SrcRound", "PamsProps.SrcRound21"]
+NAMESPACES = ["Pams.C01", "Pams.C01", "Pams.C01", "Pams.C01"]      # second: the end-to-end theorems of PamsProps/SimE2E.lean in the same namespace
 DRIVERS = ["Market", "Sim", "PyRun"]
 TRUSTED = [
     "modelled, not verified: heapq (abstracted to the sorted list; pop order compared on every state), Order.__eq__-based list.remove, IEEE doubles used only through <,== (monotone integer keys)",
